@@ -42,6 +42,13 @@ Proof.
   change (digits_value radix ds) with (fold_left (stepf radix) ds 0%Z) in *. replace (_ <=? i64_max)%Z with true by lia. reflexivity.
 Qed.
 
+Lemma parse_unsigned_value_max radix max ds : (1 <= radix)%Z -> (0 <= max)%Z -> (digits_value radix ds <= max)%Z ->
+  parse_unsigned radix max ds = Some (digits_value radix ds).
+Proof.
+  intros Hr Hm Hv. unfold parse_unsigned. rewrite (digits_val_fold radix max Hr ds 0%Z) by lia.
+  change (digits_value radix ds) with (fold_left (stepf radix) ds 0%Z) in *. replace (_ <=? max)%Z with true by lia. reflexivity.
+Qed.
+
 (* ---------- first bytes ---------- *)
 Definition nominus (k : list byte) : bool := hd_sat (fun b => negb (Byte.eqb b x2d)) k.
 
